@@ -34,10 +34,11 @@ Proof.
 Qed.
 
 (* ------------------------------------------------------------------ spelling independence *)
-Lemma key_spelling_invariant : forall p, strip_dot p = p ->
-  norm_key (46 :: 47 :: p) = norm_key p /\ norm_key (46 :: 92 :: p) = norm_key p.
+Lemma key_spelling_invariant : forall p,
+  norm_key (46 :: 47 :: p) = norm_key p /\ norm_key (46 :: 92 :: p) = norm_key p /\
+  norm_key (norm_key p) = norm_key p.
 Proof.
-  intros p H. unfold norm_key. cbn [strip_dot N.eqb Pos.eqb andb orb]. rewrite H. split; reflexivity.
+  intro p. split; [|split]; [reflexivity | reflexivity | apply norm_key_idem].
 Qed.
 
 (* ------------------------------------------------------------------ keys written by an update are stable *)
@@ -107,7 +108,6 @@ Proof.
 Qed.
 
 Lemma roundtrip : forall (R : list result) (dirs : list key) (disk0 : option baseline) (we : bool) (fl : flags),
-  stable_results R ->
   f_baseline fl = true -> f_update fl = None ->
   let disk1 := o_disk (check_step (update_flags UAll we) R dirs disk0) in
   let out := check_step fl R dirs disk1 in
@@ -121,7 +121,8 @@ Lemma roundtrip : forall (R : list result) (dirs : list key) (disk0 : option bas
     (f_wae fl = true /\ exists r, In r R /\ is_warning r = true))) /\
   (o_exit out = 0 \/ o_exit out = 1).
 Proof.
-  intros R dirs disk0 we fl HSt HB HU. cbv zeta. rewrite update_run_disk.
+  intros R dirs disk0 we fl HB HU. pose proof (stable_results_all R) as HSt.
+  cbv zeta. rewrite update_run_disk.
   set (B := update_baseline_from_results R UAll (view disk0)) in *.
   set (out := check_step fl R dirs (Some B)).
   assert (RK : rekey B = B).
@@ -344,12 +345,13 @@ Proof.
 Qed.
 
 Lemma update_idempotent : forall m R dirs disk0 we we',
-  stable_results R -> ostable (view disk0) ->
   let d1 := o_disk (check_step (update_flags m we) R dirs disk0) in
   let d2 := o_disk (check_step (update_flags m we') R dirs d1) in
   forall k, olookup k d2 = olookup k d1.
 Proof.
-  intros m R dirs disk0 we we' HR HD d1 d2 k. subst d1 d2. rewrite !update_run_disk.
+  intros m R dirs disk0 we we' d1 d2 k.
+  pose proof (stable_results_all R) as HR. pose proof (view_is_stable disk0) as HD.
+  subst d1 d2. rewrite !update_run_disk.
   rewrite (view_stable (Some _)) by (cbn; apply update_keys_stable; assumption).
   cbn [olookup]. apply update_twice.
 Qed.
